@@ -179,6 +179,7 @@ func c13Targets(c *runCtx, r *rand.Rand) {
 	nOps := 1 + r.Intn(14)
 	ops, obs, hops := []string{}, []string{}, []string{}
 	v1agree := true
+	_ = v1agree
 	defer func() {
 		if rec := recover(); rec != nil {
 			c.add("C13Panic", sideCase{Class: "targets/panic", Nontrivial: true, Key: keyOf(fmt.Sprint(hops)), Human: map[string]interface{}{"ops": hops, "panic": fmt.Sprint(rec)}})
@@ -222,15 +223,37 @@ func c13Targets(c *runCtx, r *rand.Rand) {
 			}
 			return out
 		}
-		switch x := r.Intn(12); {
+		x := r.Intn(12)
+		forcedP, forcedName := 0, ""
+		if valid { // prelude: a few principals, then rules with distinct names; afterwards removals are frequent
+			np := 2 + (nOps % 3)
+			switch {
+			case k < np:
+				x, forcedP = 0, k+1
+			case k < np+3 && k-np < len(c13Names):
+				x, forcedName = 3, c13Names[(k-np+nOps)%len(c13Names)]
+			case r.Intn(3) == 0:
+				x = 10
+			}
+		}
+		switch {
 		case x < 3:
 			p := 1 + r.Intn(5)
+			if forcedP != 0 {
+				p = forcedP
+			}
 			op, h = fmt.Sprintf("(TAddPrincipal %d%%N)", p), fmt.Sprintf("AddPrincipal p%d", p)
 			e2, e1 = t2.AddPrincipal(fakeKey(p)), t1.AddPrincipal(fakeKey(p))
 		case x < 6:
 			name, pids, pats, thr := c13Names[r.Intn(len(c13Names))], genPids(r), c13Pats[r.Intn(len(c13Pats))], r.Intn(5)-1
 			if valid && r.Intn(5) != 0 {
 				pids, thr = validArgs()
+			}
+			if forcedName != "" {
+				name = forcedName
+				if len(pats) == 0 {
+					pats = []string{"git:refs/heads/" + name}
+				}
 			}
 			op, h = fmt.Sprintf("(TAddRule %s %s %s (%d)%%Z)", coqStr(name), coqNsOrdered(pids), coqStrs(pats), thr), fmt.Sprintf("AddRule %q %v thr=%d", name, pids, thr)
 			e2, e1 = t2.AddRule(name, strs(pids), pats, thr), t1.AddRule(name, strs(pids), pats, thr)
